@@ -81,10 +81,12 @@ impl Parser {
             ));
         }
 
+        // a query that reads no column of any file needs one row only; aggregates (`count(*)`)
+        // read no column either, but have to see every row
         if limit == 0
             && fields
                 .iter()
-                .all(|expr| expr.get_required_fields().is_empty())
+                .all(|expr| expr.get_required_fields().is_empty() && !expr.has_aggregate_function())
         {
             limit = 1;
         }
